@@ -129,6 +129,8 @@ _o = sc.op_of
 # quick: every first opcode on the in-memory cassette, a representative subset on file/S3 (the cassette-specific code
 # does not depend on the program shape); tails over a subset of opcodes.  thorough: everything, L = 3, repeat <= 12.
 _QTAIL = [_o('A', 1), _o('D', 1), _o('H'), _o('N'), _o('O', 1), _o('U')]
+_TTAIL = [_o('A', 0), _o('A', 1), _o('B', 1), _o('S', 1), _o('P'), _o('R', 1), _o('C', 1), _o('D', 0), _o('D', 1), _o('H'), _o('N'),
+          _o('O', 1), _o('T'), _o('U')]
 _QSUB = [None, _o('A', 1), _o('D', 1), _o('H'), _o('O', 1), _o('U'), _o('X', 1)]
 _W = {'cassette': 'mem', 'first': _o('A', 1)}
 CONDITIONS = [
@@ -137,7 +139,8 @@ CONDITIONS = [
      'tiers': {
          'quick': {'bounds': {'L': 2, 'TAIL': _QTAIL, 'REP': 1, 'NEXC': 2}, 'timeout': 400, 'witness_timeout': 120,
                    'shards': _shards([('mem', [None] + _ALL), ('file', _QSUB), ('s3', _QSUB)]), 'witness_shard': _W},
-         'thorough': {'bounds': {'L': 3, 'TAIL': _ALL, 'REP': 12, 'NEXC': 8}, 'timeout': 6000, 'witness_timeout': 120,
-                      'shards': _shards([('mem', [None] + _ALL), ('file', [None] + _ALL), ('s3', [None] + _ALL)]),
+         'thorough': {'bounds': {'L': 3, 'TAIL': _TTAIL, 'REP': 12, 'NEXC': 4}, 'timeout': 6000, 'witness_timeout': 120,
+                      'shards': _shards([('mem', [None] + _ALL)]) +
+                      [dict(x, **{'b.L': 2, 'b.TAIL': _ALL}) for x in _shards([('file', [None] + _ALL), ('s3', [None] + _ALL)])],
                       'witness_shard': _W}}},
 ]
